@@ -361,7 +361,7 @@ func valueOracle(codec string, ops valueOps) (clause string, detail string, bloc
 
 func adOps(a adV) valueOps {
 	return valueOps{
-		toNode: func(v int) (datamodel.Node, error) { return a.toGo(v).ToNode() },
+		toNode: func(v int) (datamodel.Node, error) { return adNode(a.toGo(v)) },
 		typed:  schema.AdvertisementPrototype,
 		unwrap: func(n datamodel.Node) (interface{}, error) {
 			g, err := schema.UnwrapAdvertisement(n)
@@ -381,13 +381,13 @@ func adOps(a adV) valueOps {
 			g, ok := got.(adV)
 			return ok && adEq(g, a) && (g.Prev == nil) == (a.Prev == nil) && (g.Ext == nil) == (a.Ext == nil)
 		},
-		reenc: func(got interface{}) (datamodel.Node, error) { return got.(adV).toGo(0).ToNode() },
+		reenc: func(got interface{}) (datamodel.Node, error) { return adNode(got.(adV).toGo(0)) },
 	}
 }
 
 func chunkOps(ch chV) valueOps {
 	return valueOps{
-		toNode: func(v int) (datamodel.Node, error) { return ch.toGo(v).ToNode() },
+		toNode: func(v int) (datamodel.Node, error) { return chNode(ch.toGo(v)) },
 		typed:  schema.EntryChunkPrototype,
 		unwrap: func(n datamodel.Node) (interface{}, error) {
 			g, err := schema.UnwrapEntryChunk(n)
@@ -407,14 +407,14 @@ func chunkOps(ch chV) valueOps {
 			g, ok := got.(chV)
 			return ok && chEq(g, ch) && (g.Next == nil) == (ch.Next == nil)
 		},
-		reenc: func(got interface{}) (datamodel.Node, error) { return got.(chV).toGo(0).ToNode() },
+		reenc: func(got interface{}) (datamodel.Node, error) { return chNode(got.(chV).toGo(0)) },
 	}
 }
 
 // replays carry the value as its DAG-CBOR block: JSON text cannot hold strings that are not UTF-8
 func adReplay(a adV) replay {
 	var buf bytes.Buffer
-	n, err := a.toGo(0).ToNode()
+	n, err := adNode(a.toGo(0))
 	if err == nil {
 		err = dagcbor.Encode(n, &buf)
 	}
@@ -425,7 +425,7 @@ func adReplay(a adV) replay {
 }
 func chunkReplay(ch chV) replay {
 	var buf bytes.Buffer
-	n, err := ch.toGo(0).ToNode()
+	n, err := chNode(ch.toGo(0))
 	if err == nil {
 		err = dagcbor.Encode(n, &buf)
 	}
